@@ -897,7 +897,10 @@ fn part_extraction(run: &Run, repertoires: &[(String, Vec<u8>)]) {
     let mut firsts: Vec<(usize, u8)> = vec![];
     for (ti, (_, rep)) in repertoires.iter().enumerate() {
         for (k, &b) in rep.iter().enumerate() {
-            if run.thorough || k as u64 % 16 == run.seed % 16 {
+            // first bytes that a writer may treat specially (control range, delimiters, escape characters, digits
+            // that can merge with an octal escape before them) are always taken, the others by the seed's slice
+            let sharp = b < 0x21 || b == 0x7f || b"()\\%#<>[]/{}0189".contains(&b);
+            if run.thorough || sharp || k as u64 % 16 == run.seed % 16 {
                 firsts.push((ti, b));
             }
         }
@@ -915,7 +918,7 @@ fn part_extraction(run: &Run, repertoires: &[(String, Vec<u8>)]) {
     run.add("extraction_docs", firsts.len() as u64);
     run.add("extraction_pairs", pairs.load(Ordering::Relaxed));
     if !run.thorough {
-        run.set("extraction_pairs_slice", json!(format!("first byte index mod 16 == {} (supplementary in quick; all ordered pairs in thorough)", run.seed % 16)));
+        run.set("extraction_pairs_slice", json!(format!("first byte index mod 16 == {} plus every control / delimiter / escape / digit first byte (all ordered pairs in thorough)", run.seed % 16)));
     }
 }
 
